@@ -189,6 +189,51 @@ def send (data : Bytes) (timeoutMs : Int) (os : Os) : Res Nat × Os :=
   else if timeoutMs = 0 then sendTry data os
   else sendSome data timeoutMs os
 
+/-- UDP `SendTo(data, size, dst, timeout)`: one wait, one `sendto`; all or nothing -/
+def sendTo (data : Bytes) (timeoutMs : Int) (os : Os) : Res Nat × Os :=
+  match wait timeoutMs os with
+  | (.exn e, os) => (.exn e, os)
+  | (.ok false, os) => (.ok 0, os)
+  | (.ok true, os) =>
+    match os.sends with
+    | [] => (.exn .exhausted, os)
+    | a :: rest =>
+      match a with
+      | .accept k =>
+        let os := { os with sends := rest, calls := .send data.length (data.take (min k data.length)) :: os.calls }
+        if k ≠ data.length then (.exn .logic, os) else (.ok k, os)
+      | .fail e => (.exn (.system e), { os with sends := rest, calls := .send data.length [] :: os.calls })
+
+/-- UDP `ReceiveFrom(data, size, timeout)`: one wait, one `recvfrom`; an empty datagram is a value -/
+def receiveFrom (size : Nat) (timeoutMs : Int) (os : Os) : Res (Option Bytes) × Os :=
+  match wait timeoutMs os with
+  | (.exn e, os) => (.exn e, os)
+  | (.ok false, os) => (.ok none, os)
+  | (.ok true, os) =>
+    match os.recvs with
+    | [] => (.exn .exhausted, os)
+    | a :: rest =>
+      let os := { os with recvs := rest, calls := .recv size :: os.calls }
+      match a with
+      | .got bs => (.ok (some (bs.take size)), os)
+      | .eof => (.ok (some []), os)
+      | .fail e => (.exn (.system e), os)
+
+/-- `Accept(timeout)` / `Acceptor::Listen(timeout)`: one wait, then `accept` (a `recvs` answer:
+`got _` = a connection, `fail e` = accept failed) -/
+def acceptT (timeoutMs : Int) (os : Os) : Res (Option Unit) × Os :=
+  match wait timeoutMs os with
+  | (.exn e, os) => (.exn e, os)
+  | (.ok false, os) => (.ok none, os)
+  | (.ok true, os) =>
+    match os.recvs with
+    | [] => (.exn .exhausted, os)
+    | a :: rest =>
+      let os := { os with recvs := rest, calls := .recv 0 :: os.calls }
+      match a with
+      | .fail e => (.exn (.system e), os)
+      | _ => (.ok (some ()), os)
+
 /-- bytes handed to the OS so far, in order -/
 def wire (os : Os) : Bytes :=
   (os.calls.reverse.map fun c => match c with | .send _ acc => acc | _ => []).flatten
